@@ -79,3 +79,73 @@ func runSecondConn(proto string, firstConn bool) (impl, pred string) {
 	}
 	return impl, "FAIL:second-connection-output-altered"
 }
+
+// faultyWriter refuses exactly its n-th Write (a full disk for a moment, a closed pipe) and accepts the others.
+type faultyWriter struct {
+	lockedBuf
+	failAt, calls int
+}
+
+func (w *faultyWriter) Write(p []byte) (int, error) {
+	w.mu.Lock()
+	w.calls++
+	fail := w.calls == w.failAt
+	w.mu.Unlock()
+	if fail {
+		return 0, fmt.Errorf("sink refused this write")
+	}
+	return w.lockedBuf.Write(p)
+}
+
+// runSinkFaultOtherStream: the host's SyncStdout writer refuses one write; everything the plugin writes to STDERR, before
+// and after, must still reach SyncStderr (and the connection stays usable).
+func runSinkFaultOtherStream(proto string) (impl, pred string) {
+	cmd := kitCmd(kitServeCfg{Sets: map[string]string{"3": proto}, GRPCServer: proto == "grpc"})
+	bo := &faultyWriter{failAt: 2}
+	var be lockedBuf
+	client := plugin.NewClient(&plugin.ClientConfig{
+		HandshakeConfig:  kitHandshake(),
+		VersionedPlugins: kitHostSets(map[int]string{3: proto}, nil, nil),
+		Cmd:              cmd,
+		AllowedProtocols: []plugin.Protocol{plugin.ProtocolNetRPC, plugin.ProtocolGRPC},
+		Logger:           nullLogger(),
+		StartTimeout:     30 * time.Second,
+		SyncStdout:       bo,
+		SyncStderr:       &be,
+	})
+	defer func() {
+		withTimeout(8*time.Second, func() error { client.Kill(); return nil })
+		if cmd.Process != nil {
+			cmd.Process.Kill()
+		}
+	}()
+	cp, err := client.Client()
+	if err != nil {
+		return "setup-error", "FAIL:setup-client"
+	}
+	raw, err := cp.Dispense("kit")
+	if err != nil {
+		return "setup-error", "FAIL:setup-dispense"
+	}
+	k := raw.(Kit)
+	var wantE bytes.Buffer
+	for i := 0; i < 6; i++ {
+		o := []byte(fmt.Sprintf("out-%d|", i))
+		e := []byte(fmt.Sprintf("err-%d|", i))
+		wantE.Write(e)
+		if err := k.Emit(o, e); err != nil {
+			return "emit-error", "FAIL:connection-unusable-after-sink-fault"
+		}
+		time.Sleep(60 * time.Millisecond)
+	}
+	deadline := time.Now().Add(4 * time.Second)
+	for time.Now().Before(deadline) && be.Len() < wantE.Len() {
+		time.Sleep(50 * time.Millisecond)
+	}
+	got := be.snapshot()
+	impl = fmt.Sprintf("err=%d/%d out=%d", len(got), wantE.Len(), bo.Len())
+	if !bytes.Equal(got, wantE.Bytes()) {
+		return impl, "FAIL:fault-of-the-stdout-writer-stopped-stderr-delivery"
+	}
+	return impl, "ok"
+}
